@@ -143,6 +143,18 @@ theorem floor_share_of_original_pos (b0 : Bank) (hR : 0 < b0.remaining) (gs : Li
 
 example : (runClaims ⟨true, 0, [10, 7]⟩ [0, 3, 0]).2 = [(0, [0, 0]), (0, [0, 0])] := by decide
 
+/-- **account binding**: an exchange can only be completed against the bank of ITS OWN GT exchange vault — a bank bound
+to another vault is rejected whatever it holds (so no other vault's bank pays, and no other bank's remaining GT is
+burnt); with the own bank the instruction is exactly `claim`. -/
+theorem claim_foreign_bank_rejected (bankVault exVault : Nat) (b : Bank) (g : Nat) (h : bankVault ≠ exVault) :
+    claimWith bankVault exVault b g = none := by
+  simp [claimWith, h]
+
+theorem claimWith_own (v : Nat) (b : Bank) (g : Nat) : claimWith v v b g = claim b g := by
+  simp [claimWith]
+
+example : (claimWith 0 0 ⟨true, 10, [100, 7]⟩ 5).isSome = true ∧ claimWith 1 0 ⟨true, 10, [100, 7]⟩ 5 = none := by decide
+
 /-- the claim that takes all remaining GT drains the bank: it pays every balance in full. -/
 theorem last_claim_drains {b b' : Bank} {n : Nat} {amts : List Nat} (hR : 0 < b.remaining)
     (h : claim b b.remaining = some (b', n, amts)) :
